@@ -11,9 +11,9 @@ package rpm
 // numeric segments compare as integers of any length ignoring leading zeros
 //@ func compareRPMDigits
 //@   comparator a ~ b                                     [C01]
-//@   ensures shorter: a != "" && b != "" && len(strings.TrimLeft(a, "0")) < len(strings.TrimLeft(b, "0")) ==> result == -1   [C11]
-//@   ensures longer: a != "" && b != "" && len(strings.TrimLeft(a, "0")) > len(strings.TrimLeft(b, "0")) ==> result == 1     [C11]
-//@   ensures same-length: a != "" && b != "" && len(strings.TrimLeft(a, "0")) == len(strings.TrimLeft(b, "0")) ==> result == strings.Compare(strings.TrimLeft(a, "0"), strings.TrimLeft(b, "0"))   [C11]
+//@   ensures shorter: a != "" && b != "" && len(strings.TrimLeft(a, "0")) < len(strings.TrimLeft(b, "0")) ==> result == -1   [C03 C11]
+//@   ensures longer: a != "" && b != "" && len(strings.TrimLeft(a, "0")) > len(strings.TrimLeft(b, "0")) ==> result == 1     [C03 C11]
+//@   ensures same-length: a != "" && b != "" && len(strings.TrimLeft(a, "0")) == len(strings.TrimLeft(b, "0")) ==> result == strings.Compare(strings.TrimLeft(a, "0"), strings.TrimLeft(b, "0"))   [C03 C11]
 
 // everything except letters, digits, '~' and '^' only separates segments
 //@ func isSeparator
@@ -98,3 +98,9 @@ package rpm
 
 //@ func (*VersionRange).String
 //@   ensures text: result == arg0.original   [C18]
+
+// lifting to whole ranges: an AND-range of comparator constraints treats versions that compare equal alike (the two
+// quantified sides are what Contains returns for v1 and v2, by its `and` clause)
+//@ lemma c20-range-equal [C20] uses c20-equal: forall vr *VersionRange, v1, v2 *Version :: vr != nil && v1 != nil && v2 != nil && wfRange(vr) && (forall i int :: 0 <= i && i < len(vr.constraints) ==> vr.constraints[i].version != nil && (vr.constraints[i].operator == "=" || vr.constraints[i].operator == "!=" || vr.constraints[i].operator == "<" || vr.constraints[i].operator == "<=" || vr.constraints[i].operator == ">" || vr.constraints[i].operator == ">=")) && v1.Compare(v2) == 0 ==> ((forall i int :: 0 <= i && i < len(vr.constraints) ==> satisfiesRPMConstraint(v1, vr.constraints[i])) == (forall i int :: 0 <= i && i < len(vr.constraints) ==> satisfiesRPMConstraint(v2, vr.constraints[i])))
+// ... and the set a range without != accepts is convex in the order
+//@ lemma c20-range-convex [C20] uses c20-convex: forall vr *VersionRange, a, b, d *Version :: vr != nil && a != nil && b != nil && d != nil && wfRange(vr) && (forall i int :: 0 <= i && i < len(vr.constraints) ==> vr.constraints[i].version != nil && (vr.constraints[i].operator == "=" || vr.constraints[i].operator == "!=" || vr.constraints[i].operator == "<" || vr.constraints[i].operator == "<=" || vr.constraints[i].operator == ">" || vr.constraints[i].operator == ">=") && vr.constraints[i].operator != "!=") && a.Compare(b) <= 0 && b.Compare(d) <= 0 && (forall i int :: 0 <= i && i < len(vr.constraints) ==> satisfiesRPMConstraint(a, vr.constraints[i])) && (forall i int :: 0 <= i && i < len(vr.constraints) ==> satisfiesRPMConstraint(d, vr.constraints[i])) ==> (forall i int :: 0 <= i && i < len(vr.constraints) ==> satisfiesRPMConstraint(b, vr.constraints[i]))
